@@ -792,6 +792,30 @@ example : mlScore ⟨[true, true], [0, 0]⟩ = 1 / 70368744177664 := by decide +
 example : hitK 2 2 ⟨some 0, [1/4, 1/2]⟩ = false ∧ hitK 3 2 ⟨some 0, [1/4, 1/2]⟩ = true := by decide +kernel
 
 
+/-! ### balanced data, two-dimensional inputs (review additions) -/
+
+/-- "for balanced datasets, the score is equal to accuracy" (the definition of the term): when every
+    class that occurs in the truth ('none' included) occurs equally often, balanced accuracy is accuracy -/
+theorem C09_balanced_accuracy_balanced_is_accuracy (C : Nat) (items : List Item) (m : Nat)
+    (hb : ∀ it ∈ items, trueIdx C it.y ≤ C)
+    (hm : ∀ c ∈ presentClasses C items, items.countP (fun it => trueIdx C it.y == c) = m) :
+    balancedAccuracy C items = accuracy C items := balancedAccuracy_eq_accuracy_of_balanced C items m hb hm
+
+theorem C09_range_jaccard_samples (rows : List MLItem) : 0 ≤ jaccardSamples rows ∧ jaccardSamples rows ≤ 1 := by
+  unfold jaccardSamples
+  apply mean_range
+  intro x hx
+  obtain ⟨r, _, rfl⟩ := List.mem_map.mp hx
+  exact jaccard_range r
+
+theorem C09_micro_average_precision (rows : List MLItem) :
+    0 ≤ microAP rows ∧ microAP rows ≤ 1 ∧ ∀ it : MLItem, microAP [it] = exampleAP it := by
+  refine ⟨(averagePrecision_range _).1, (averagePrecision_range _).2, ?_⟩
+  intro it
+  simp [microAP, exampleAP]
+
+example : jaccardSamples [⟨[true, false], [3/4, 1/4]⟩, ⟨[true, true], [3/4, 1/4]⟩] = 3/4 := by decide +kernel
+
 /-! ### non-vacuity: concrete instances of the hypotheses and conventions above -/
 
 -- first-wins argmax against last-wins top-k on a four-way tie: correct, yet not in the top 3
@@ -819,5 +843,20 @@ example : pairClips [(3, "p3"), (1, "p1"), (7, "p7")] [(1, "a1"), (3, "a3"), (5,
 -- a task driver returns a value (hypothesis `… = .ok out` of the spec theorems)
 example : (clipClassification 2 [(0, ⟨[(some 0, 1/2)]⟩)] [(0, ⟨[some 0]⟩)]).toOption.map (·.score) = some (1/2) := by
   decide +kernel
+
+-- the drivers return a value (hypothesis `… = .ok out` of the distinct-terms and permutation theorems)
+example : (soundEventClassification 2 [(0, [⟨7, true, [(some 0, 1/2)]⟩]), (1, [])] [(1, []), (0, [⟨7, true, [some 1]⟩])]).toOption.map
+    (fun o => (o.score, o.metrics.map (·.1), o.clips.map (·.score))) =
+    some (0, ["Balanced Accuracy", "Accuracy", "Top 3 Accuracy"], [some 0, none]) := by decide +kernel
+example : (clipMultilabel 2 [(0, ⟨[(some 0, 3/4)]⟩)] [(0, ⟨[some 0]⟩)] [3/4]).toOption.map
+    (fun o => (o.score, o.metrics, o.clips.map (·.metrics))) =
+    some (3/4, [("Mean Average Precision", 1/2)], [[("Jaccard Index", 1), ("Average Precision", 1)]]) := by decide +kernel
+example : (Detection.soundEventDetection 2 [(0, ⟨[⟨7, true, [(some 0, 1/2)]⟩], [⟨some 0, some 0, 1/2⟩]⟩)]
+    [(0, [⟨8, true, [some 0]⟩])]).toOption.map (fun o => (o.score, o.metrics.map (·.1), o.clips.map (fun c => c.mts.map (fun m => m.metrics.map (·.1))))) =
+    some (1/2, ["Mean Average Precision", "Balanced Accuracy", "Accuracy", "Top 3 Accuracy"], [[["True Class Probability"]]]) := by
+  decide +kernel
+-- a balanced truth (each present class once): balanced accuracy = accuracy
+example : balancedAccuracy 2 [⟨some 0, [1/2, 1/4]⟩, ⟨some 1, [1/2, 1/4]⟩, ⟨none, [1/4, 1/4]⟩] = 2/3 ∧
+    accuracy 2 [⟨some 0, [1/2, 1/4]⟩, ⟨some 1, [1/2, 1/4]⟩, ⟨none, [1/4, 1/4]⟩] = 2/3 := by decide +kernel
 
 end SE.Proofs.C09
